@@ -682,6 +682,49 @@ def r17_slot_cover(ctx):
                       f.loc(), "each slot receives the same slot of the "
                       "other operand",
                       "Duration.__add__ mixes components: %s" % bad, P11)
+    # any method that rewrites slots through a *literal* list of slot names
+    # covers, together with its explicit stores, every unit slot (a list
+    # copied from elsewhere that leaves a unit out - the week form, say -
+    # silently skips that component)
+    all_units = set(UNIT_SLOTS) | {"_weeks"}
+    for cls_ in (dur, tz):
+        for name, f in sorted(cls_.methods.items()):
+            lists = []
+            for n in walk_no_nested(f.node):
+                if isinstance(n, ast.For) and isinstance(
+                        n.iter, (ast.List, ast.Tuple)) and n.iter.elts and \
+                        all(isinstance(e, ast.Constant) and
+                            e.value in all_units for e in n.iter.elts) and \
+                        any(isinstance(c, ast.Call) and U(c.func) == "setattr"
+                            for st in n.body for c in ast.walk(st)):
+                    lists.append(n)
+            if not lists:
+                continue
+            rep.anchor(rule, "slot-wise operations")
+            covered = set()
+            for n in lists:
+                covered |= {e.value for e in n.iter.elts}
+            for n in walk_no_nested(f.node):
+                tg = []
+                if isinstance(n, ast.Assign):
+                    tg = n.targets
+                elif isinstance(n, ast.AugAssign):
+                    tg = [n.target]
+                for t in tg:
+                    for x in (t.elts if isinstance(t, ast.Tuple) else [t]):
+                        if isinstance(x, ast.Attribute) and \
+                                x.attr in all_units:
+                            covered.add(x.attr)
+            missing = sorted(all_units - covered)
+            rep.check(not missing, rule,
+                      ctx.fkey(f, None, "literal-slot-list"), f.loc(lists[0]),
+                      "%s.%s rewrites its unit slots through a literal list "
+                      "that, with its explicit stores, covers all seven" % (
+                          cls_.name, name),
+                      "%s.%s rewrites unit slots through a literal list of "
+                      "names but never touches %s: that component keeps its "
+                      "old value (a week-form duration is left unchanged)" %
+                      (cls_.name, name, missing), P11 + ("C14",))
     for name in ("__mul__", "__abs__", "__bool__"):
         f = dur.methods.get(name)
         if f is None:
